@@ -1,5 +1,6 @@
 import Mav.Gen.MsgsAll
 import Mav.Gen.Consts
+import Mav.Proofs.SortLink
 /-
   C03 — payload layout, sizes and CRC_EXTRA. Property theorems only.
   `layoutAgrees st` (Mav/Model/MsgCheck.lean) says: the MODEL of `ReadWriter.Initialize` accepts `st`, `st` is in the
@@ -13,6 +14,21 @@ open Mav
 theorem sizes_table (t : Gen.FType) : (Gen.fieldTypeSizes t).toNat = Spec.Msg.tySize t := by cases t <;> rfl
 
 theorem names_table (t : Gen.FType) : Gen.fieldTypeString t = Spec.Msg.tyName t := by cases t <;> rfl
+
+/-- **C03 (field order, for every struct).** Not only for the shipped definitions: whenever `Initialize` accepts a struct and the
+    struct is a MAVLink definition in the specification's sense (extensions declared after the base fields), the model
+    puts the fields on the wire in the specification's order — base fields by decreasing primitive size, declaration order
+    within a size, then the extensions as declared. The model's sort is insertion with the comparator of the Go code; the
+    comparator is proved to be a strict total order on such structs, so ANY correct sort (Go's `sort.Slice` included) yields
+    this same order (`SortOrder.sorted_unique`). -/
+theorem wire_order_universal (st : Msg.GoStruct) (rw : Msg.RW) (d : Spec.Msg.SDef)
+    (h1 : Msg.init st = .ok rw) (h2 : Spec.Msg.ofGo st = some d) :
+    rw.fields.map (·.index) = (Spec.Msg.wireOrder d).map (·.idx) := SortLink.wire_order_agrees st rw d h1 h2
+
+/-- without "extensions after base fields" the comparator of the Go code is not transitive (a base field declared after an
+    extension): the result of `sort.Slice` would be unspecified; the specification's domain excludes such structs -/
+example : SortOrder.less ⟨0, false, 1⟩ ⟨1, true, 1⟩ = true ∧ SortOrder.less ⟨1, true, 1⟩ ⟨2, false, 8⟩ = true ∧
+    SortOrder.less ⟨0, false, 1⟩ ⟨2, false, 8⟩ = false := by decide
 
 /-- **C03 (every shipped definition; enumerated, kernel-decided).** For each of the message structs defined under
     pkg/dialects (regenerated from the source on every run) layout, sizes and CRC_EXTRA of the model equal the spec's. -/
